@@ -25,7 +25,8 @@ if os.environ.get("C14_PROPOSED_FINDINGS"):
     common.Findings.__init__ = _init
 
 CORE = {"ethernet", "vlan", "arp", "ipv4", "udp", "tcp", "icmp", "echo", "unreach", "time_exceeded"}       # Model/PacketHdr.lean
-EXT = {"llc", "mpls", "lldp", "eapol", "eap", "ipv6", "icmpv6", "echo6", "gre", "vxlan", "igmp", "rip"}        # Model/PacketExt.lean
+EXT = {"llc", "mpls", "lldp", "eapol", "eap", "ipv6", "icmpv6", "echo6", "gre", "vxlan", "igmp", "rip",        # Model/PacketExt.lean
+       "nd_ns", "nd_na", "nd_rs", "nd_ra", "toobig6", "timeex6", "unreach6", "dhcp"}
 MODELLED = CORE | EXT
 TERMINAL = {"bytes", "none"}
 UDP_SPECIAL = {67, 68, 53, 5353, 520, 4789}
@@ -188,12 +189,20 @@ class C14(Check):
                              "port_id._parse_data", "port_id._pack_data", "ttl._parse_data", "ttl._pack_data", "management_address._parse_data",
                              "management_address._pack_data", "organizationally_specific._parse_data", "organizationally_specific._pack_data",
                              "system_capabilities._parse_data", "system_capabilities._pack_data"],
-                    "ipv6": ["ipv6.hdr"], "icmpv6": ["icmpv6.hdr", "icmpv6._calc_checksum", "echo.parse", "echo.hdr"],
+                    "ipv6": ["ipv6.hdr"],
+                    "icmpv6": ["icmpv6.hdr", "icmpv6._calc_checksum", "icmpv6.parse", "echo.parse", "echo.hdr", "_parse_ndp_options", "NDOptionBase.unpack_new",
+                               "NDOptionBase.pack", "NDOptionGeneric._unpack_new", "NDOptionGeneric._pack_body", "NDOptLinkLayerAddress._unpack_new",
+                               "NDOptLinkLayerAddress._pack_body", "NDOptPrefixInformation._unpack_new", "NDOptPrefixInformation._pack_body",
+                               "NDOptMTU._unpack_new", "NDOptMTU._pack_body", "NDRouterSolicitation.unpack_new", "NDRouterSolicitation.pack",
+                               "NDRouterAdvertisement.unpack_new", "NDRouterAdvertisement.pack", "NDNeighborSolicitation.unpack_new",
+                               "NDNeighborSolicitation.pack", "NDNeighborAdvertisement.unpack_new", "NDNeighborAdvertisement.pack",
+                               "TimeExceeded.unpack_new", "TimeExceeded.hdr", "PacketTooBig.unpack_new", "PacketTooBig.hdr", "unreach.parse", "unreach.hdr"],
+                    "dhcp": ["dhcp.parse", "dhcp.parseOptions", "dhcp.parseOptionSegment", "dhcp.packOptions", "dhcp.hdr"],
                     "gre": ["gre.hdr"], "vxlan": ["vxlan.parse", "vxlan.hdr"], "igmp": ["igmp.hdr", "igmp.parse", "GroupRecord.unpack_new", "GroupRecord.pack"],
                     "rip": ["rip.hdr", "rip.parse", "RIPEntry.hdr", "RIPEntry.parse"]}
     anchors = []
     coverage_cases = 2500
-    trusted_base = ["models Model/Checksum.lean, Model/PacketLayout.lean, Model/PacketHdr.lean (10 classes), Model/PacketExt.lean (12 more classes: llc, mpls, lldp, eapol, eap, ipv6, icmpv6, echo6, gre, vxlan, igmp, rip) hand-written from pox/lib/packet; tied by this correspondence run",
+    trusted_base = ["models Model/Checksum.lean, Model/PacketLayout.lean, Model/PacketHdr.lean (10 classes), Model/PacketExt.lean (llc, mpls, lldp, eapol, eap, ipv6, icmpv6 + echo + the four NDP messages with their options + packet-too-big / time-exceeded / unreachable, gre, vxlan, igmp, rip, dhcp with its option TLVs) hand-written from pox/lib/packet; tied by this correspondence run",
                     "harness/c14.py detect_variant: whether the tree has the proposed repairs D50 (RIP metric struct 'I') / D49 (EAP request/response keep their body) is read off the source (ast shapes, unknown shape = error); the driver evaluates the model at that variant (XCfg) and the correspondence validates the choice",
                     "the driver answers every stack from the extended model and, for stacks of the ten original classes, refuses to answer unless the original model (the one the chain theorem is about) gives the identical result",
                     "RFC 1071 transcription `Pox.Checksum.rfc1071` (Lean) and `rfc1071` (harness/c14.py), cross-checked against each other on every cksum case",
@@ -232,7 +241,8 @@ class C14(Check):
     # which of the proposed repairs that change *modelled* behaviour the tree under test has (fixes/C14_D50_rip_metric_unsigned.diff,
     # fixes/C14_D49_eap_keep_type_data.diff): read off the source with ast, statement shapes pattern-checked; an unknown shape is an
     # error, never a guess.  The driver evaluates the model at that variant (Model/PacketExt.lean XCfg) and the correspondence run
-    # validates the choice.  The other repairs (D45-D48) only touch code the model declines, so they need no variant.
+    # validates the choice.  D45 (DHCP options) and D47 (NDP / ICMPv6 error bodies) are committed and the model describes the repaired code;
+    # D46 / D48 only touch code the model declines, so they need no variant.
     def detect_variant(self):
         import ast
         def funcs(mod, cls):
@@ -372,6 +382,8 @@ class C14(Check):
             elif o["t"] == 5: out.append(M.NDOptMTU(mtu=o["mtu"]))
             elif o["t"] == 3: out.append(M.NDOptPrefixInformation(prefix_length=o["plen"], on_link=o["onlink"], is_autonomous=o["auto"], valid_lifetime=o["valid"],
                                                                   preferred_lifetime=o["pref"], prefix=self.IPAddr6(bytes.fromhex(o["prefix"]), raw=True)))
+            else:
+                g = M.NDOptionGeneric(); g.TYPE = o["t"]; g.raw = bytes.fromhex(o["raw"]); out.append(g)
         return out
     def mk_nd_ns(self, L, n):
         return self.m["icmpv6"].NDNeighborSolicitation(target=self.IPAddr6(bytes.fromhex(L["target"]), raw=True), options=self._ndopts(L))
@@ -507,7 +519,7 @@ class C14(Check):
             return {"k": "dhcp", "op": o.op, "htype": o.htype, "hlen": o.hlen, "hops": o.hops, "xid": o.xid, "secs": o.secs, "flags": o.flags, "ciaddr": self._ip(o.ciaddr),
                     "yiaddr": self._ip(o.yiaddr), "siaddr": self._ip(o.siaddr), "giaddr": self._ip(o.giaddr), "chaddr": chx,
                     "sname": bytes(o.sname).ljust(64, b"\0").hex(), "file": bytes(o.file).ljust(128, b"\0").hex(), "magic": self._hex(o.magic),
-                    "options": sorted([c, self._hex(v.pack() if hasattr(v, "pack") else v)] for c, v in o.options.items())}
+                    "options": [[c, self._hex(v.pack() if hasattr(v, "pack") else v)] for c, v in o.options.items()]}
         if name == "dns":
             rr = lambda r: {"name": r.name, "qtype": r.qtype, "qclass": r.qclass, "ttl": r.ttl,
                             "data": (self._ip(r.rddata) if r.qtype == 1 else self._ip6(r.rddata) if r.qtype == 28 else r.rddata if isinstance(r.rddata, str) else self._hex(r.rddata))}
@@ -625,7 +637,20 @@ class C14(Check):
     def _mlayer(L):
         L = {k: v for k, v in L.items() if not k.startswith("_")}
         if L["k"] == "gre": L["csum"] = True if L["csum"] else None
+        if L["k"] == "dhcp":
+            L["magic"] = "63825363"
+            L["options"] = [[o["c"], C14._dhcp_opt_bytes(o).hex()] for o in L["options"]]
         return L
+
+    @staticmethod
+    def _dhcp_opt_bytes(o):
+        """wire value of a DHCP option of the case (what the option classes' pack() must produce)"""
+        c, v = o["c"], o["v"]
+        if c == 53: return bytes([v])
+        if c in (1, 28, 50, 54, 51, 58, 59): return struct.pack("!I", v)
+        if c in (3, 4, 6): return b"".join(struct.pack("!I", a) for a in v)
+        if c == 55: return bytes(v)
+        return bytes.fromhex(v)
 
     def model_request(self, case):
         if case["kind"] == "cksum":
@@ -975,6 +1000,7 @@ class C14(Check):
             w = rng.choice(["echo", "echo", "unk", "ns", "na", "rs", "ra", "toobig", "timeex", "unreach"])
             ic = lambda t: {"k": "icmpv6", "type": t, "code": self.val(rng, 8) if w in ("echo", "unk") else 0}
             opts = lambda: [rng.choice([{"t": 1, "addr": self.rbytes(rng, 6).hex()}, {"t": 2, "addr": self.rbytes(rng, 6).hex()}, {"t": 5, "mtu": self.val(rng, 32)},
+                                        {"t": rng.choice([14, 200]), "raw": self.rbytes(rng, rng.choice([6, 14])).hex()},
                                         {"t": 3, "plen": self.val(rng, 8), "onlink": rng.random() < .5, "auto": rng.random() < .5, "valid": self.val(rng, 32),
                                          "pref": self.val(rng, 32), "prefix": self.rbytes(rng, 16).hex()}])
                             for _ in range(rng.choice([0, 1, 2]))]
@@ -1215,7 +1241,19 @@ class C14(Check):
                   [E, I(17), dict(U, srcport=520, dstport=520), {"k": "rip", "command": 2, "version": 2,
                                                                  "entries": [{"af": 2, "tag": 0, "ip": 0x0a000000, "mask": 0xff000000, "nh": 0, "metric": 3}]}, {"k": "none"}],
                   [dict(E, type=0x8847), {"k": "mpls", "label": 5, "tc": 1, "s": 0, "ttl": 9}, {"k": "mpls", "label": 0xfffff, "tc": 7, "s": 1, "ttl": 255}, {"k": "bytes", "data": "61626364"}],
-                  [dict(E, type=0x888e), {"k": "eapol", "version": 1, "type": 0, "bodylen": 4}, {"k": "eap", "code": 3, "id": 7, "length": 4}, {"k": "none"}]]
+                  [dict(E, type=0x888e), {"k": "eapol", "version": 1, "type": 0, "bodylen": 4}, {"k": "eap", "code": 3, "id": 7, "length": 4}, {"k": "none"}],
+                  [dict(E, type=0x86dd), I6, {"k": "icmpv6", "type": 134, "code": 0},
+                   {"k": "nd_ra", "hop_limit": 64, "managed": True, "other": False, "lifetime": 1800, "reachable": 0, "retrans": 1000,
+                    "opts": [{"t": 1, "addr": "001122334455"}, {"t": 5, "mtu": 1500},
+                             {"t": 3, "plen": 64, "onlink": True, "auto": True, "valid": 86400, "pref": 14400, "prefix": "20010db8" + "00" * 12}]}, {"k": "none"}],
+                  [dict(E, type=0x86dd), I6, {"k": "icmpv6", "type": 136, "code": 0},
+                   {"k": "nd_na", "target": "fe80" + "00" * 13 + "05", "opts": [{"t": 2, "addr": "001122334455"}, {"t": 14, "raw": "010203040506"}],
+                    "router": True, "solicited": False, "override": True}, {"k": "none"}],
+                  [dict(E, type=0x86dd), I6, {"k": "icmpv6", "type": 2, "code": 0}, {"k": "toobig6", "mtu": 1280}, {"k": "bytes", "data": "60000000"}],
+                  [E, I(17), dict(U, srcport=68, dstport=67),
+                   {"k": "dhcp", "op": 1, "htype": 1, "hlen": 6, "hops": 0, "xid": 0x12345678, "secs": 0, "flags": 0x8000, "ciaddr": 0, "yiaddr": 0, "siaddr": 0,
+                    "giaddr": 0, "chaddr": "001122334455" + "00" * 10, "sname": "", "file": "",
+                    "options": [{"c": 53, "v": 1}, {"c": 55, "v": [1, 3, 6]}, {"c": 12, "v": "686f7374"}, {"c": 51, "v": 3600}]}, {"k": "none"}]]
         for base in xbases:
             L = self.fixup(base)
             try:
@@ -1224,7 +1262,7 @@ class C14(Check):
                 continue
             for k in range(0, n + 1):
                 cases.append({"kind": "mutparse", "top": "ethernet", "layers": L, "mut": [{"m": "trunc", "n": k}]})
-            for i in range(12, min(n, 100)):
+            for i in list(range(12, min(n, 100))) + list(range(max(100, n - 40), n)):
                 for v in (0, 1, 2, 3, 6, 8, 0x0f, 0x11, 0x22, 0x3a, 0x3b, 0x40, 0x60, 0x80, 0xaa, 0xff):
                     cases.append({"kind": "mutparse", "top": "ethernet", "layers": L, "mut": [{"m": "set", "i": i, "v": v}]})
         # --- one of every un-modelled module (fixed seed)
@@ -1259,25 +1297,37 @@ C14.theorems = ["Pox.C14." + t for t in (
     "icmp6_hdr", "icmp6_roundtrip", "echo6_roundtrip", "gre_hdr", "gre_roundtrip", "vxlan_roundtrip", "igmp_v2", "igmp_v3", "rip_roundtrip",
     "xparse_eth_dispatch", "xparse_ipv4_dispatch", "xparse_udp_dispatch", "lldp_frame_roundtrip",
     # code variants (proposed repairs D50 / D49)
-    "rip_roundtrip_unsigned", "eap_roundtrip_body", "variant_head")]
+    "rip_roundtrip_unsigned", "eap_roundtrip_body", "variant_head",
+    # phase 4: validity of packed chains with the pseudo header taken from the emitted enclosing header; NDP, ICMPv6 errors, DHCP
+    "chain_valid", "xpack_ipv6_udp_valid", "xpack_ipv6_tcp_valid", "xpack_ipv6_icmp6_valid", "vxlan_arp_frame",
+    "icmp6_dispatch", "nd_option_length", "nd_options_roundtrip", "ndp_roundtrip", "icmp6_errors_roundtrip",
+    "dhcp_options_roundtrip", "dhcp_roundtrip")]
 C14.level_text = (
     "Proved in Lean for all inputs: packet_utils.checksum (incl. start / skip_word, odd lengths) = RFC 1071 for data <= 128 KiB; generic struct pack/unpack round trip. "
-    "Per class, hdr/parse round trip + every length field + every Internet checksum = RFC 1071 (and verifies at a receiver): "
+    "Per class, hdr/parse round trip (and hdr of the parsed object = the same bytes) + every length field + every Internet checksum = RFC 1071 (and verifies at a receiver): "
     "Ethernet, 802.1Q, ARP, IPv4 (+options), UDP and TCP (+option lists) over IPv4 and over IPv6 pseudo headers, ICMP (echo/unreachable/time-exceeded/other), "
     "LLC (1/2 control octets, SNAP), MPLS, LLDP (whole PDU: chassis/port/TTL + description/name/capabilities/management-address/org-specific/unknown TLVs + END, TLV lengths exact), "
-    "EAPOL, EAP success/failure, IPv6 fixed header (payload length), ICMPv6 (+echo; the parse-side checksum verification accepts what hdr emits), GRE (flags/key/seq/checksum), VXLAN, "
-    "IGMP v1/v2 messages and v3 reports with group records (checksum verified by parse), RIP (entries, signed metric). "
-    "Whole-chain theorem for the ten original classes (any nesting): parse(pack p) = p with the computed fields filled in and pack(parse(pack p)) = pack p. "
+    "EAPOL, EAP success/failure, IPv6 fixed header (payload length), ICMPv6 (every type: checksum verification accepts what hdr emits, dispatch to the message class; echo; "
+    "NDP router/neighbor solicitation/advertisement with link-layer-address / prefix-information / MTU / unknown options, option lengths exact; packet-too-big, time-exceeded, unreachable), "
+    "GRE (flags/key/seq/checksum), VXLAN, IGMP v1/v2 messages and v3 reports with group records (checksum verified by parse), RIP (entries, signed metric), "
+    "DHCP (fixed header, chaddr/sname/file/cookie, option TLVs with PAD/END, RFC 3396 split of values > 255 bytes and their re-assembly). "
+    "Whole-chain theorems for the ten original classes (any nesting): parse(pack p) = p with the computed fields filled in, pack(parse(pack p)) = pack p, and chain_valid: in the packed "
+    "bytes every IPv4 total length / IHL / header checksum, UDP length, and UDP/TCP/ICMP checksum is right, the UDP/TCP pseudo header being read from the emitted enclosing IPv4 header "
+    "(not assumed); the same for eth/ipv6/{udp,tcp,icmpv6}. Composed frames through the phase-2 parsers: Ethernet+LLDP and eth/ipv4/udp/vxlan/eth/arp. "
     "Every run re-checks the models against the real classes (pack bytes, attributes of the built and re-parsed chains, re-pack) for all of the above, and evaluates the independent "
     "round-trip / RFC 1071 oracle on all 21 modules.")
 C14.level_note = (
-    "The theorems are about hand-written models (Model/Checksum.lean, PacketLayout.lean, PacketHdr.lean, PacketExt.lean) of the code as committed (repairs D12, D13, D40-D44, D51, D22 are in); "
-    "they are tied to the code only by the differential run. PROVED per class (49 theorems): ethernet, vlan, arp, ipv4, udp, tcp, icmp(+echo, unreach, time_exceeded), llc, mpls, lldp, eapol, "
-    "eap(success/failure), ipv6(fixed header), icmpv6(+echo), gre, vxlan, igmp, rip. The chain-level theorem (roundtrip/repack_id) covers stacks of the ten original classes only; for stacks "
-    "containing the phase-2 classes the hand-over from Ethernet/IPv4/UDP is proved (xparse_*_dispatch) and the whole Ethernet+LLDP probe frame is proved (lldp_frame_roundtrip); other "
-    "compositions are checked by the differential run, not proved. "
-    "STILL DIFFERENTIAL ONLY (real build->bytes->parse->re-pack + independent recomputation in the harness, no theorem): DHCP and DNS (open findings D45/D46 leave only the option-less/"
-    "question-less header), IPv6 extension headers (D48), ICMPv6 error and NDP bodies (D47), EAP request/response bodies (D49), GRE routing, MPTCP TCP options. "
+    "The theorems are about hand-written models (Model/Checksum.lean, PacketLayout.lean, PacketHdr.lean, PacketExt.lean) of the code as committed (repairs D12, D13, D40-D45, D47, D51, D22 are in); "
+    "they are tied to the code only by the differential run. PROVED per class (61 theorems): ethernet, vlan, arp, ipv4, udp, tcp, icmp(+echo, unreach, time_exceeded), llc, mpls, lldp, eapol, "
+    "eap(success/failure), ipv6(fixed header), icmpv6(+echo, NDP messages and options, packet-too-big, time-exceeded, unreachable), gre, vxlan, igmp, rip, dhcp(+options). "
+    "The chain-level theorems (roundtrip/repack_id/chain_valid) cover stacks of the ten original classes only; for stacks containing the other classes the hand-over from Ethernet/IPv4/UDP/ICMPv6 "
+    "is proved (xparse_*_dispatch, icmp6_dispatch), eth/ipv6/{udp,tcp,icmpv6} validity is proved, and two whole frames are proved (lldp_frame_roundtrip, vxlan_arp_frame); other compositions "
+    "are checked by the differential run, not proved. DHCP options are modelled at the byte level (code, value): the typed option classes (DHCPMsgTypeOption, DHCPIPOptionBase, ...) are "
+    "compared through their pack() bytes by the differential run only. The DHCP overload option (52) is never honoured by the code (bytes compared with an int) and the model says the same. "
+    "STILL DIFFERENTIAL ONLY (real build->bytes->parse->re-pack + independent recomputation in the harness, no theorem): DNS (open finding D46 leaves only the question-less header), "
+    "IPv6 extension headers (D48), EAP request/response bodies on the committed tree (D49; the repaired variant is proved: eap_roundtrip_body), GRE routing, MPTCP TCP options. "
+    "DESIGN §5 announced translator-derived obligations c14_<proto>_layout_partial; there is no translator and no *_partial obligation: every module listed above has a hand-written behaviour "
+    "model with full (not layout-only) theorems plus model comparison, and the remainder is differential only as listed. "
     "Trusted: Lean kernel, propext/Classical.choice/Quot.sound, the RFC 1071 transcriptions, the harness's wire walker, little-endian host.")
 
 CHECK = C14
